@@ -1649,51 +1649,27 @@ class MeshRegion:
         region.poloidal_distance.xlow = 0.0
         region.poloidal_distance.corners = 0.0
 
-        # Initialise so that distance counts from the lower wall (for SOL/PFR) or wall
-        # (for core)
-        for i in range(self.nx):
-            c = region.contours[2 * i + 1]
-            # Cell-centre points
-            region.poloidal_distance.centre[i, :] -= c.get_distance(
-                psi=self.meshParent.equilibrium.psi
-            )[c.startInd]
-            # ylow points
-            region.poloidal_distance.ylow[i, :] -= c.get_distance(
-                psi=self.meshParent.equilibrium.psi
-            )[c.startInd]
-        for i in range(self.nx + 1):
-            c = region.contours[2 * i]
-            # Cell-centre points
-            region.poloidal_distance.xlow[i, :] -= c.get_distance(
-                psi=self.meshParent.equilibrium.psi
-            )[c.startInd]
-            # ylow points
-            region.poloidal_distance.corners[i, :] -= c.get_distance(
-                psi=self.meshParent.equilibrium.psi
-            )[c.startInd]
-
-        # Get distances from contours
+        # Get distances from contours. In each region the distance along a contour is
+        # counted from the start point of that contour (which is on the lower wall or the
+        # lower X-point for the first region, and on the boundary with the previous
+        # region for the others - the zero of get_distance() can be before that point).
         while True:
             for i in range(self.nx):
                 c = region.contours[2 * i + 1]
+                d = numpy.array(c.get_distance(psi=self.meshParent.equilibrium.psi))
+                d = d - d[c.startInd]
                 # Cell-centre points
-                region.poloidal_distance.centre[i, :] += c.get_distance(
-                    psi=self.meshParent.equilibrium.psi
-                )[1::2]
+                region.poloidal_distance.centre[i, :] += d[1::2]
                 # ylow points
-                region.poloidal_distance.ylow[i, :] += c.get_distance(
-                    psi=self.meshParent.equilibrium.psi
-                )[::2]
+                region.poloidal_distance.ylow[i, :] += d[::2]
             for i in range(self.nx + 1):
                 c = region.contours[2 * i]
+                d = numpy.array(c.get_distance(psi=self.meshParent.equilibrium.psi))
+                d = d - d[c.startInd]
                 # Cell-centre points
-                region.poloidal_distance.xlow[i, :] += c.get_distance(
-                    psi=self.meshParent.equilibrium.psi
-                )[1::2]
+                region.poloidal_distance.xlow[i, :] += d[1::2]
                 # ylow points
-                region.poloidal_distance.corners[i, :] += c.get_distance(
-                    psi=self.meshParent.equilibrium.psi
-                )[::2]
+                region.poloidal_distance.corners[i, :] += d[::2]
 
             next_region = region.getNeighbour("upper")
             if (next_region is None) or (next_region is self):
